@@ -501,3 +501,13 @@ Example C13_source_syntax_error_computed :
   source_error_text 20 [97; 32; 43; 32; 34; 98; 10; 99] (2, 0) [109] =
     SR.ROk [SR.VStr [109; 32; 40; 50; 58; 49; 41; 10; 32; 124; 32; 99; 10; 32; 124; 32; 94]].
 Proof. vm_compute. split; reflexivity. Qed.
+
+(* ---- ast/node.go `base` regenerated: a node's location is stored as the file.Location it was given and returned unchanged
+        (the node locations of the theorems above are pairs (line, column) of unbounded integers) ---- *)
+Require X.Bridge.BrAstBase.
+Theorem C13_node_location_storage_is_source :
+  X.gen.GenWalk.gen_base_fields = X.Bridge.BrAstBase.base_fields_model /\
+  X.gen.GenWalk.gen_base_methods = X.Bridge.BrAstBase.base_methods_model /\
+  X.Bridge.BrAstBase.stores_and_returns "loc" "Location" "SetLocation".
+Proof. exact (conj (proj1 X.Bridge.BrAstBase.gen_base_is_model) (conj (proj2 X.Bridge.BrAstBase.gen_base_is_model) X.Bridge.BrAstBase.location_read_after_write)). Qed.
+Print Assumptions C13_node_location_storage_is_source.
